@@ -718,7 +718,7 @@ def show(t, depth=0, maxdepth=8):
 # ---------------------------------------------------------------- small matching helpers
 
 def is_call(t, *names, nargs=None):
-    if t[0] != "call":
+    if not t or t[0] != "call":
         return False
     if names and not name_in(t[1]["name"], names) and not name_in(t[1]["decl"], names):
         return False
@@ -809,6 +809,62 @@ def subst(t, mapping):
         else:
             out.append(x)
     return tuple(out)
+
+
+def rewrite(t, f):
+    """bottom-up rewriting: children first, then f(node) (f returns the node or a replacement)"""
+    if not isinstance(t, tuple) or not t:
+        return t
+    if not isinstance(t[0], str):
+        return tuple(rewrite(x, f) for x in t)
+    k = t[0]
+    if k == "call":
+        t = ("call", t[1], tuple(rewrite(a, f) for a in t[2]))
+    elif k == "agg":
+        t = ("agg", t[1], t[2], tuple(rewrite(a, f) for a in t[3]))
+    elif k == "phi":
+        t = ("phi", tuple(rewrite(a, f) for a in t[1]))
+    else:
+        t = (k,) + tuple(rewrite(x, f) if (isinstance(x, tuple) and x and isinstance(x[0], str)) else x for x in t[1:])
+    return f(t)
+
+
+def _identity_adapters(t):
+    if t[0] != "call":
+        return t
+    a = t[2]
+    # v.into_iter().collect()  ==  v   (same elements, same order; the container may change, the sequence does not)
+    if is_call(t, "core::iter::traits::iterator::Iterator::collect", nargs=1) and is_call(a[0], "core::iter::traits::collect::IntoIterator::into_iter", nargs=1):
+        return a[0][2][0]
+    # into_iter() of something that already is an iterator adapter
+    if is_call(t, "core::iter::traits::collect::IntoIterator::into_iter", nargs=1) and a[0][0] == "call" and \
+            a[0][1]["decl"].startswith("core::iter::traits::iterator::Iterator::") and a[0][1]["decl"].split("::")[-1] in ("map", "filter", "enumerate", "filter_map", "cloned", "copied"):
+        return a[0]
+    # T -> T conversions
+    if (is_call(t, "core::convert::Into::into", nargs=1) or is_call(t, "core::convert::From::from", nargs=1)):
+        gs = [g for g in t[1].get("gargs", []) if isinstance(g, int)]
+        if len(gs) == 2 and gs[0] == gs[1]:
+            return a[0]
+    return t
+
+
+def _clone_free(t):
+    if t[0] == "call" and len(t[2]) == 1:
+        d = t[1]["decl"]
+        if d == "core::clone::Clone::clone" or d in ("core::iter::traits::iterator::Iterator::cloned", "core::iter::traits::iterator::Iterator::copied") \
+                or t[1]["name"] in ("core::option::Option::cloned", "core::option::Option::copied", "alloc::borrow::ToOwned::to_owned"):
+            return t[2][0]
+    return t
+
+
+def strip_clones(t):
+    """value provenance ignores copies: `x.clone()`, `it.cloned()`, `it.copied()` denote the same value(s) as x / it"""
+    return rewrite(t, _clone_free)
+
+
+def simplify(t):
+    """remove identity adapters (`into_iter().collect()`, `T: Into<T>`): rules compare what a value IS, not how it is spelled"""
+    return rewrite(t, _identity_adapters)
 
 
 def _body_drop_flags(self):
